@@ -2,7 +2,7 @@
    square - every reported self-intersection (s1, s2) satisfies 0 <= s1 < s2 <= 1; in particular the trivial meeting
    of two halves (s1 = s2) is never reported, at any recursion depth. *)
 From Coq Require Import List ZArith QArith Bool Lqa.
-From BZ Require Import Model.SelfIsect.
+From BZ Require Import Model.Intersect Model.SelfIsect Theory.Uniq.
 Import ListNotations.
 Open Scope Q_scope.
 
@@ -12,6 +12,21 @@ Definition streams_ok (st : streams) : Prop := Forall (Forall unit_pair) (isects
 
 Lemma streams_ok_tail st lr more : streams_ok st -> isects st = lr :: more -> Forall unit_pair lr /\ Forall (Forall unit_pair) more.
 Proof. unfold streams_ok. intros H E. rewrite E in H. inversion H; subst. split; assumption. Qed.
+
+(* the loop over add_intersection is the generic "keep unless it repeats something kept" fold *)
+Definition dupQ (p e : pairQ) : bool := is_dup (fst p) (snd p) e.
+Lemma add_intersection_is_ustep s t ints : add_intersection s t ints = ustep dupQ ints (s, t).
+Proof. unfold add_intersection, ustep, dupQ. cbn [fst snd]. destruct ints; reflexivity. Qed.
+Lemma uniq_is_uniq_by l : uniq l = uniq_by dupQ l.
+Proof.
+  assert (G : forall (l : list pairQ) (acc : list pairQ),
+             fold_left (fun acc p => add_intersection (fst p) (snd p) acc) l acc = fold_left (ustep dupQ) l acc).
+  { clear l. induction l as [|p l IH]; intros acc; [reflexivity|].
+    cbn [fold_left]. rewrite add_intersection_is_ustep. destruct p as [s t]. apply IH. }
+  exact (G l []).
+Qed.
+Lemma uniq_incl l p : In p (uniq l) -> In p l.
+Proof. rewrite uniq_is_uniq_by. apply uniq_by_incl. Qed.
 
 Theorem self_isect_ordered : forall fuel st res st',
   streams_ok st -> self_isect fuel st = Some (res, st') -> Forall ordered res /\ streams_ok st'.
@@ -28,6 +43,7 @@ Proof.
     destruct (isects st2) as [|lr more] eqn:Ei; [discriminate|].
     destruct (streams_ok_tail st2 lr more Hok2 Ei) as [Hlr Hmore].
     injection H as <- <-. split; [|exact Hmore].
+    apply Forall_forall. intros p0 Hp0. apply uniq_incl in Hp0. revert p0 Hp0. apply Forall_forall.
     apply Forall_app. split; [|apply Forall_app; split].
     + apply Forall_forall. intros p Hp. apply in_map_iff in Hp. destruct Hp as [q [<- Hq]].
       rewrite Forall_forall in HL. destruct (HL q Hq) as [H1 [H2 H3]]. unfold ordered, half. cbn [fst snd]. lra.
@@ -47,3 +63,20 @@ Proof.
     + apply Forall_forall. intros p Hp. apply in_map_iff in Hp. destruct Hp as [q [<- Hq]].
       rewrite Forall_forall in HR. destruct (HR q Hq) as [H1 [H2 H3]]. unfold ordered, half. cbn [fst snd]. lra.
 Qed.
+
+(* no pair is reported twice: in the reported list no entry repeats an earlier one (add_intersection's notion of repeated:
+   relative distance below NEWTON_ERROR_RATIO = 2^-36, read from the source) - at every level of the recursion *)
+Theorem self_isect_reports_nothing_twice : forall fuel st res st',
+  self_isect fuel st = Some (res, st') -> norepeat dupQ res.
+Proof.
+  intros [|f] st res st' H; [discriminate|]. cbn [self_isect] in H.
+  destruct (angles st) as [|[|] rest]; [discriminate| |].
+  - injection H as <- <-. intros [|x l1] p l2 E; discriminate E.
+  - destruct (self_isect f _) as [[left_self st1]|]; [|discriminate].
+    destruct (self_isect f st1) as [[right_self st2]|]; [|discriminate].
+    destruct (isects st2) as [|lr more]; [discriminate|]. injection H as <- <-.
+    rewrite uniq_is_uniq_by. apply uniq_by_norepeat.
+Qed.
+(* ... and nothing found is lost by the removal of repeats: every pair of the three sources is reported or repeats a reported one *)
+Theorem uniq_loses_nothing : forall l p, In p l -> In p (uniq l) \/ exists e, In e (uniq l) /\ dupQ p e = true.
+Proof. intros l p H. rewrite uniq_is_uniq_by. apply uniq_by_covers. exact H. Qed.
